@@ -50,6 +50,10 @@ func (i c12input) raw() *interfaces.ConsensusRawMessage {
 	return r
 }
 
+func c12words() []uint32 {
+	return []uint32{0, 1, 2, 3, 4, 5, 8, 0x10, 0x7fffffff, 0x80000000, 0xfffffff8, 0xfffffffc, 0xfffffffd, 0xffffffff}
+}
+
 func c12alphabet(stride int) []c12input {
 	var r []c12input
 	add := func(class string, content []byte, blk *kit.Block) {
@@ -75,6 +79,27 @@ func c12alphabet(stride int) []c12input {
 	for tag := 0; tag <= 7; tag++ {
 		add(fmt.Sprintf("union-tag-%d-empty-body", tag), []byte{byte(tag), 0, 0, 0}, nil)
 		add(fmt.Sprintf("union-tag-%d-short", tag), []byte{byte(tag), 0}, nil)
+	}
+	// every buffer of one, two or three little-endian 32-bit words over a boundary grid: union tags, lengths and
+	// offsets that are zero, tiny, huge, or wrap around when added to an offset (0xfffffffc + 8 = 4)
+	wgrid := c12words()
+	le := func(ws ...uint32) []byte {
+		var b []byte
+		for _, w := range ws {
+			b = append(b, byte(w), byte(w>>8), byte(w>>16), byte(w>>24))
+		}
+		return b
+	}
+	for _, a := range wgrid {
+		add(fmt.Sprintf("words-%x", a), le(a), nil)
+		for _, b := range wgrid {
+			add(fmt.Sprintf("words-%x-%x", a, b), le(a, b), nil)
+			if a <= 5 { // a plausible union tag first
+				for _, c3 := range wgrid {
+					add(fmt.Sprintf("words-%x-%x-%x", a, b, c3), le(a, b, c3), nil)
+				}
+			}
+		}
 	}
 	add("eight-ff", []byte{0xff, 0xff, 0xff, 0xff, 0xff, 0xff, 0xff, 0xff}, nil)
 	add("eight-mixed", []byte{0, 0, 0, 0, 0xff, 0xff, 0xff, 0x7f}, nil)
@@ -103,6 +128,14 @@ func c12alphabet(stride int) []c12input {
 				if m[off] != b.Content[off] {
 					add(fmt.Sprintf("mut-%s-%d-%d", k, off, mi), m, blk)
 				}
+			}
+		}
+		// every aligned 32-bit word replaced by a boundary value (length and offset fields at every nesting level)
+		for off := 0; off+4 <= len(b.Content); off += 4 * stride {
+			for _, w := range []uint32{0, 0x7fffffff, 0x80000000, 0xfffffff8, 0xfffffffc, 0xfffffffd, 0xffffffff} {
+				m := append([]byte{}, b.Content...)
+				m[off], m[off+1], m[off+2], m[off+3] = byte(w), byte(w>>8), byte(w>>16), byte(w>>24)
+				add(fmt.Sprintf("word-%s-%d-%x", k, off, w), m, blk)
 			}
 		}
 		add("nil-block-"+k, b.Content, nil)
